@@ -715,7 +715,8 @@ def surface_lines(ctx, d, g, img, cs, tok, origin, lines, impl):
             if isinstance(res, Raised):
                 return repr(res)
             arr_ = np.asarray(res.img)
-            for p_ in range(dim):
+            # when several axes fit (equal extents and identical data, e.g. extent 1) the selections are indistinguishable: prefer the hinted one
+            for p_ in ([p_hint] if p_hint is not None else []) + [q_ for q_ in range(dim) if q_ != p_hint]:
                 if arr_.shape != tuple(n_ for q_, n_ in enumerate(shape) if q_ != p_):
                     continue
                 digits = (arr_.astype(np.int64) // (16 ** p_)) % 16
@@ -732,9 +733,9 @@ def surface_lines(ctx, d, g, img, cs, tok, origin, lines, impl):
                 t_ = Fraction(rng.randint(0, 31), 32)
                 cut = float(frac(origin[i]) + (-1 if r_ else 1) * (v_ + t_) * (frac(g["dims"][p_]) / shape[p_]))
                 lines.append(f"slicen {name} {tok} {fmts([cut])}")
-                impl.append(selected(call(simg.slice, cut, name)))
+                impl.append(selected(call(simg.slice, cut, name), p_))
                 lines.append(f"slicei {tok} {p_} {v_}")
-                impl.append(selected(call(simg.slice, v_, p_)))
+                impl.append(selected(call(simg.slice, v_, p_), p_))
     for mode in ("same", "dims", "shape", "origin", "dim"):
         g2 = variant_geometry(rng, g, mode)
         if g2 is None:
